@@ -15,6 +15,14 @@ class Built:
         self.records = []           # (scope index, record object, model record) in creation order
         self.stats = Counter()
         self.no_exclude = False
+        self.requested = [set()]    # per scope: prefixes this scope was asked to bind (explicitly or through a
+                                    # QualifiedName object resolved in it); such a prefix shadows the document's
+
+    def note_qn(self, si, q):
+        """remember that QualifiedName q is about to be resolved in scope si"""
+        p = q.namespace.prefix
+        self.requested[si].add(p or "dn")
+        return q
 
     # expected content in the same shape as canon.canon()
     def expected(self):
@@ -87,8 +95,8 @@ def spell(b, si, name, inherit=True):
         p = _registered_prefix(scope, ns)
         if p is None and si != 0 and inherit:
             p = _registered_prefix(doc, ns)
-            if p is not None and any(n.prefix == p for n in scope.namespaces):
-                p = None   # shadowed in the bundle
+            if p is not None and (any(n.prefix == p for n in scope.namespaces) or p in b.requested[si]):
+                p = None   # shadowed in the bundle (bound there, or asked for there and renamed)
             if p is not None:
                 b.stats["spell:str-inherited"] += 1
         if p:
@@ -110,12 +118,15 @@ def spell(b, si, name, inherit=True):
         cands = list(scope.namespaces)
         if si != 0 and inherit:
             cands += list(doc.namespaces)
-        if any(full.startswith(n.uri) and full.count(n.uri) == 1 for n in cands) and not any(
+        own = any(full.startswith(n.uri) for n in scope.namespaces)
+        if any(full.startswith(n.uri) for n in cands) and not any(
                 full.startswith(n.prefix + ":") for n in cands if n.prefix):
             b.stats["spell:uri"] += 1
+            if not own:
+                b.stats["spell:uri-inherited"] += 1
             return full
     b.stats["spell:qn"] += 1
-    return QualifiedName(Namespace(name["prefix"], ns), local)
+    return b.note_qn(si, QualifiedName(Namespace(name["prefix"], ns), local))
 
 
 def pyvalue(b, si, v):
@@ -131,12 +142,14 @@ def pyvalue(b, si, v):
     if k == "uri":
         return Identifier(v["v"])
     if k == "qn":
-        return QualifiedName(Namespace(v["prefix"], v["ns"]), v["local"])
+        b.stats["value:qn-object"] += 1
+        return b.note_qn(si, QualifiedName(Namespace(v["prefix"], v["ns"]), v["local"]))
     if k == "lang":
         return Literal(v["v"], langtag=v["lang"])
     if k == "lit":
         dt = v["dt"]
-        return Literal(v["v"], QualifiedName(Namespace(dt["prefix"], dt["ns"]), dt["local"]))
+        b.stats["value:qn-object"] += 1
+        return Literal(v["v"], b.note_qn(si, QualifiedName(Namespace(dt["prefix"], dt["ns"]), dt["local"])))
     if k == "tlit":
         return Literal(v["v"], QualifiedName(Namespace("xsd", spec.XSD_NS), v["dt"]))
     raise ValueError(k)
@@ -174,6 +187,7 @@ def apply_op(b, op, inherit=True):
     code = op[0]
     if code == "ns":
         si = op[1] % len(b.scopes)
+        b.requested[si].add(op[2])
         b.scopes[si].add_namespace(op[2], op[3])
         b.stats["op:ns"] += 1
     elif code == "default":
@@ -206,6 +220,7 @@ def apply_op(b, op, inherit=True):
             b.stats["op:add_bundle"] += 1
         else:
             nb = b.doc.bundle(spell(b, 0, name))
+        b.requested.append({nb.identifier.namespace.prefix or "dn"})
         b.scopes.append(nb)
         b.scope_ids.append(uri)
         b.model.append([])
@@ -223,6 +238,8 @@ def apply_op(b, op, inherit=True):
             if dropped == 0 and len(cand) == len(m["intent_attrs"]) + 1:
                 m["intent_attrs"].append([nm, val])
                 new.append([nm, val])
+        if si != 0 and any(v["k"] in ("qn", "lit", "tlit") or nm["as"] == "qn" for nm, v in new):
+            inherit = False    # same rule as in _apply_rec: no document-level spellings next to QualifiedName objects
         pairs = [(spell(b, si, nm, inherit), pyvalue(b, si, val)) for nm, val in new]
         if op[3] == "dict":
             # a dict cannot carry two values for one key: keep the pair form for those
@@ -253,6 +270,34 @@ def apply_op(b, op, inherit=True):
 
 
 def _apply_rec(b, op, inherit):
+    """One API call resolves several names in sequence, and an earlier QualifiedName object can change what a later
+    string relies on (a bundle adopting a default namespace, a renamed prefix request).  Spellings relying on the
+    *document's* bindings are therefore only used in calls that carry no caller-made QualifiedName object."""
+    if inherit and b.scopes and (op[1] % len(b.scopes)) != 0:
+        snap = (Counter(b.stats), [set(x) for x in b.requested])
+        n_inh = b.stats["spell:str-inherited"] + b.stats["spell:bare-inherited"] + b.stats["spell:uri-inherited"]
+        n_qn = b.stats["spell:qn"] + b.stats["value:qn-object"] + b.stats["ref:record-object"]
+        probe = _Probe(b)
+        _apply_rec2(probe, op, True, dry=True)
+        used_inh = (b.stats["spell:str-inherited"] + b.stats["spell:bare-inherited"] + b.stats["spell:uri-inherited"]) > n_inh
+        used_qn = (b.stats["spell:qn"] + b.stats["value:qn-object"] + b.stats["ref:record-object"]) > n_qn
+        b.stats, b.requested = snap[0], snap[1]
+        if used_inh and used_qn:
+            b.stats["spell:inherited-withdrawn"] += 1
+            inherit = False
+    return _apply_rec2(b, op, inherit)
+
+
+class _Probe:
+    """dry-run view of a Built (spelling decisions only, nothing is sent to the library)"""
+    def __init__(self, b):
+        self.__dict__["b"] = b
+
+    def __getattr__(self, k):
+        return getattr(self.b, k)
+
+
+def _apply_rec2(b, op, inherit, dry=False):
     from prov.model import PROV_REC_CLS
     from prov.identifier import Namespace
     _, ssel, kind, ident, formal, attrs, via = op
@@ -276,6 +321,7 @@ def _apply_rec(b, op, inherit):
                 if els:
                     s, r, mm = els[a["rec"] % len(els)]
                     kwargs[arg] = r
+                    b.note_qn(si, r.identifier)
                     m["attrs"].append((spec.PROV_NS + arg, ("qn", mm["id"])))
                     b.stats["ref:record-object"] += 1
                     continue
@@ -285,6 +331,8 @@ def _apply_rec(b, op, inherit):
     other = [(spell(b, si, nm, inherit), pyvalue(b, si, val)) for nm, val in attrs]
     for nm, val in attrs:
         m["attrs"].append((name_uri(nm), mval(val)))
+    if dry:
+        return None
     if via == "new_record" or (ident is not None and not fac_id):
         PROV = Namespace("prov", spec.PROV_NS)
         fa = [(PROV[arg], v) for arg, v in kwargs.items()]
@@ -306,3 +354,100 @@ def _apply_rec(b, op, inherit):
     b.records.append((si, rec, m))
     b.stats["kind:" + kind] += 1
     b.stats["rec:anon" if ident is None and not is_el else "rec:identified"] += 1
+
+
+# ------------------------------------------------------------- content-level construction (C04, C08, C09 ...)
+def content_of(b):
+    """abstract content of a built recipe: {"doc": [rec...], "bundles": [[uri, [rec...]], ...]}
+    rec = {"type": uri, "id": uri|None, "attrs": [[attr uri, canonical value], ...]} (formal arguments included)"""
+    def rec(m):
+        seen = []
+        for a in m["attrs"]:
+            if a not in seen:
+                seen.append(a)
+        return {"type": m["type"], "id": m["id"], "attrs": [[a, list(v)] for a, v in seen]}
+    return {"doc": [rec(m) for m in b.model[0]],
+            "bundles": [[b.scope_ids[i], [rec(m) for m in b.model[i]]] for i in range(1, len(b.scopes))]}
+
+
+def split_uri(uri):
+    for i in range(len(uri) - 1, -1, -1):
+        if uri[i] in "#/:" and i < len(uri) - 1:
+            return uri[:i + 1], uri[i + 1:]
+    for i in range(len(uri) - 1, -1, -1):
+        if uri[i] in "#/:" and i > 0:
+            return uri[:i], uri[i:]
+    return uri[:1], uri[1:]
+
+
+class _Names:
+    def __init__(self, style=0):
+        self.style = style
+        self.ns = {}
+
+    def qn(self, uri):
+        from prov.identifier import Namespace, QualifiedName
+        ns, local = split_uri(uri)
+        if ns == spec.PROV_NS:
+            return QualifiedName(Namespace("prov", ns), local)
+        if ns not in self.ns:
+            self.ns[ns] = Namespace("%s%d" % ("nmkq"[self.style % 4], len(self.ns) + self.style), ns)
+        return QualifiedName(self.ns[ns], local)
+
+
+def value_from_canon(cv, names):
+    from prov.model import Literal
+    from prov.identifier import Identifier
+    k = cv[0]
+    if k in ("str", "int", "bool"):
+        return cv[1]
+    if k == "float":
+        return float.fromhex(cv[1])
+    if k == "dt":
+        d = datetime.datetime.fromisoformat(cv[1])
+        if cv[2] is not None:
+            d = d.replace(tzinfo=datetime.timezone(datetime.timedelta(seconds=cv[2])))
+        return d
+    if k == "uri":
+        return Identifier(cv[1])
+    if k == "qn":
+        return names.qn(cv[1])
+    if k == "lit":
+        if cv[3]:
+            return Literal(cv[1], langtag=cv[3])
+        return Literal(cv[1], names.qn(cv[2]))
+    raise ValueError(cv)
+
+
+def construct(content, order=None, style=0):
+    """Build a document from abstract content through new_record with QualifiedName objects.
+    `order`: optional list of ints used to permute records inside each container."""
+    from prov.model import ProvDocument
+    names = _Names(style)
+    doc = ProvDocument()
+
+    def fill(container, recs, salt):
+        idx = list(range(len(recs)))
+        if order:
+            idx.sort(key=lambda i: (order[(i + salt) % len(order)], i))
+        for i in idx:
+            r = recs[i]
+            attrs = [(names.qn(a), value_from_canon(tuple(v) if not isinstance(v, tuple) else v, names))
+                     for a, v in r["attrs"]]
+            container.new_record(names.qn(r["type"]), None if r["id"] is None else names.qn(r["id"]), attrs)
+
+    fill(doc, content["doc"], 0)
+    bl = list(content["bundles"])
+    if order and len(bl) > 1 and order[0] % 2:
+        bl.reverse()
+    for j, (uri, recs) in enumerate(bl):
+        fill(doc.bundle(names.qn(uri)), recs, j + 1)
+    return doc
+
+
+def content_canon(content):
+    """canon-shaped expected value of abstract content"""
+    def c(r):
+        return (r["type"], r["id"], tuple(sorted(set((a, tuple(v)) for a, v in r["attrs"]), key=repr)))
+    return (Counter(c(r) for r in content["doc"]),
+            {uri: Counter(c(r) for r in recs) for uri, recs in content["bundles"]})
